@@ -91,5 +91,9 @@ theorem warmup_initialised_iff (now : Time) (a : Asset) :
   unfold initStep rewardsStarted
   by_cases h1 : a.isInit = true <;> by_cases h2 : now ≥ a.startTime <;> simp [h1, h2]
 
+/-- `RewardsStarted` — the gate of rewards, voting power and take rate during the warm-up — is what the source says now -/
+theorem rewards_started_is_the_source (a : Asset) (t : Time) :
+    Generated.RewardsStarted a t = .ok (rewardsStarted a t) := ArithTie.rewardsStarted_is_source a t
+
 end C14
 end Alliance
